@@ -1,41 +1,59 @@
-(** Prop_C06.v -- C06: applications are isolated from each other.  Step
-    isolation (proved, quoted from IsoFacts.v); the trace-level non-interference
-    statement is written out below as [C06_noninterference_statement] and is NOT
-    proved (it is moreover false as it stands because of known finding KF1, see
-    [C06_shared_id_refuted]). *)
+(** Prop_C06.v -- C06: applications are isolated from each other.
+    Statements quoted by type from IsoFacts.v and NonInterference.v (printed by
+    [Check]).  History-level non-interference: for every history H from the
+    initial state in which no handler fails internally (by Prop_C17 that happens
+    only through the known findings -- KF1: a mailbox id that exists under another
+    app or a colliding generated id; KF3), and every app B: the run of H and the
+    run of H with all other apps' commands removed ([filterB]: commands on
+    connections bound to another app and binds to another app are dropped; sweeps,
+    clock advances, connects, disconnects stay) agree on everything B's side can
+    observe -- every frame to every connection not bound to another app, in order
+    -- and on everything stored for B ([relB]: B's nameplates with their claims,
+    mailboxes, side rows and messages in both copies of the database, B's usage
+    records, B's subscriptions and connection records, clock and timer).  Nameplate
+    row ids (global AUTOINCREMENT, never visible to clients) are abstracted. *)
 From MW Require Import Base Store Monad Usage Server Websocket Service Findings Inv Obs
-     ProtoFacts StepFacts IsoFacts Inst_Params.
+     ProtoFacts StepFacts IsoFacts NonInterference Inst_Params.
 Local Open Scope list_scope.
 
-(** a command of a connection bound to app A -- whatever it is and whatever its
-    outcome -- leaves every other app B's nameplates, claims, mailboxes, side rows,
-    messages and usage records exactly as they were (work and committed copies),
-    keeps B's subscriptions and connection records, and sends frames only to
-    connections bound to A *)
+(** what B observes and what is stored for B is the same whether or not clients of other apps are active *)
+Theorem C06_noninterference : ltac:(let t := type of noninterference in exact t).
+Proof. exact noninterference. Qed.
+Check C06_noninterference.
+Print Assumptions C06_noninterference.
+
+(** one step: an event of another app changes nothing of B's world and sends nothing to B's side *)
+Theorem C06_dropped_event_invisible : ltac:(let t := type of dropped_event_invisible in exact t).
+Proof. exact dropped_event_invisible. Qed.
+Check C06_dropped_event_invisible.
+Print Assumptions C06_dropped_event_invisible.
+
+(** one step: every other event has the same effect on B's world, and produces the same frames for B's side, in both runs *)
+Theorem C06_kept_event_congruent : ltac:(let t := type of kept_event_congruent in exact t).
+Proof. exact kept_event_congruent. Qed.
+Check C06_kept_event_congruent.
+Print Assumptions C06_kept_event_congruent.
+
+(** no command on a connection bound to one app reads, changes or deletes another
+    app's rows: a command of app A -- whatever it is and whatever its outcome, internal
+    failures included -- leaves every other app B's nameplates, claims, mailboxes,
+    side rows, messages and usage records exactly as they were (work and committed
+    copies), keeps B's subscriptions and connection records, and sends frames only
+    to connections bound to A *)
 Theorem C06_step_isolation : ltac:(let t := type of step_isolation in exact t).
 Proof. exact step_isolation. Qed.
 Check C06_step_isolation.
 Print Assumptions C06_step_isolation.
+
 (** connects, disconnects and commands of unbound connections touch no stored row *)
 Theorem C06_unbound_isolation : ltac:(let t := type of unbound_isolation in exact t).
 Proof. exact unbound_isolation. Qed.
 Check C06_unbound_isolation.
 Print Assumptions C06_unbound_isolation.
 
-(** the full statement: B's observations in H equal those in H with the other
-    apps' commands removed (not proved) *)
-Definition concerns (B : string) (s : state) (e : event) : bool :=
-  match e with
-  | EB (ECmd c _ _) | EB (EDisconnect c) | EB (EConnect c) =>
-      match lookup_conn c (conns s) with
-      | Some cs => match c_bound cs with Some (a, _) => seqb a B | None => true end
-      | None => true
-      end
-  | _ => true
-  end.
 
-(** KF1 (open known finding): app A's client is refused a mailbox id only
-    because app B happens to use it -- A's observation depends on B *)
+(** KF1 (open known finding): without the no-failure hypothesis the statement is
+    false -- app A's client is refused a mailbox id only because app B uses it *)
 Example C06_shared_id_refuted :
   let cfg := gen_cfg true false None in
   let bind a := mkCmd (Some TBind) None (Some a) (Some "s") None None None None None None None in
@@ -46,3 +64,16 @@ Example C06_shared_id_refuted :
   map o_exc (snd (run cfg (init cfg 0) hA)) = [None; None; None] /\
   map o_exc (snd (run cfg (init cfg 0) (hB ++ hA))) = [None; None; None; None; None; Some XIntegrity].
 Proof. vm_compute. split; reflexivity. Qed.
+
+(** two apps with identical nameplate, side and mailbox-free traffic: B's events survive the filter, A's do not *)
+Example C06_nonvacuous :
+  let cfg := gen_cfg true false None in
+  let bind a := mkCmd (Some TBind) None (Some a) (Some "s") None None None None None None None in
+  let claim := mkCmd (Some TClaim) None None None (Some "4") None None None None None None in
+  let h := [EB (EConnect 1); EB (ECmd 1 (bind "A") (mkOracle None (mkAO None [])));
+            EB (ECmd 1 claim (mkOracle (Some "AAAAAAAA") (mkAO None [])));
+            EB (EConnect 2); EB (ECmd 2 (bind "B") (mkOracle None (mkAO None [])));
+            EB (ECmd 2 claim (mkOracle (Some "BBBBBBBB") (mkAO None [])))] in
+  no_failure_run cfg (init cfg 0) h /\
+  List.length (filterB cfg "B" (init cfg 0) h) = 4%nat.
+Proof. vm_compute. repeat split; reflexivity. Qed.
